@@ -50,6 +50,11 @@ from google.rpc import code_pb2
 from google.rpc import status_pb2
 
 
+def _status_message(e: Exception) -> str:
+  """str(e) as text a protobuf string field accepts (no lone surrogates)."""
+  return str(e).encode('utf-8', 'backslashreplace').decode('utf-8')
+
+
 def _get_current_time() -> timestamp_pb2.Timestamp:
   now = timestamp_pb2.Timestamp()
   now.GetCurrentTime()
@@ -430,7 +435,9 @@ class VizierServicer(vizier_service_pb2_grpc.VizierServiceServicer):
       # grpc.RpcError, the in-process PythiaServicer raises it as is.
       except Exception as e:  # pylint: disable=broad-except
         output_op.error.CopyFrom(
-            status_pb2.Status(code=code_pb2.Code.INTERNAL, message=str(e))
+            status_pb2.Status(
+                code=code_pb2.Code.INTERNAL, message=_status_message(e)
+            )
         )
         logging.exception(
             'Failed to request trials from Pythia for request: %s', request
@@ -467,7 +474,9 @@ class VizierServicer(vizier_service_pb2_grpc.VizierServiceServicer):
           )
       except KeyError as e:
         output_op.error.CopyFrom(
-            status_pb2.Status(code=code_pb2.Code.INTERNAL, message=str(e))
+            status_pb2.Status(
+                code=code_pb2.Code.INTERNAL, message=_status_message(e)
+            )
         )
         logging.exception(
             'Failed to write metadata update to datastore: %s',
